@@ -481,6 +481,23 @@ func runC11(c c11Case) ev.Outcome {
 			if pf3.Verify(sess, cv.EC, pk, vp.NTildei, vp.H1i, vp.H2i, cA, c2, Xbad) {
 				return accepted("Bob-WC transcript for a wrong point (reference prover)")
 			}
+			// mirror image: the multiplier really used is q - x, the stated point is X = x*G = -((q-x)*G), and the
+			// mask point is sent negated; both sides of the point equation then differ only in sign, which a
+			// comparison of one coordinate cannot see
+			xm := new(big.Int).Sub(q, xq)
+			if c2m, err := pk.HomoMult(xm, cA); err == nil {
+				c2m, _ = pk.HomoAdd(c2m, cY)
+				km := defaultBobMasks(q, N, vp.NTildei)
+				ctl := refBobProof(sess, cv, N, vp.NTildei, vp.H1i, vp.H2i, cA, c2m, xm, y, r, crypto.ScalarBaseMult(cv.EC, xm), km)
+				if ctl.Verify(sess, cv.EC, pk, vp.NTildei, vp.H1i, vp.H2i, cA, c2m, crypto.ScalarBaseMult(cv.EC, xm)) {
+					km.NegU = true
+					pf5 := refBobProof(sess, cv, N, vp.NTildei, vp.H1i, vp.H2i, cA, c2m, xm, y, r, X, km)
+					if pf5.Verify(sess, cv.EC, pk, vp.NTildei, vp.H1i, vp.H2i, cA, c2m, X) {
+						return accepted("Bob-WC proof for the NEGATIVE of the point really used (mirrored mask point)")
+					}
+					out.Label += " mirrored"
+				}
+			}
 			// adaptive U with the LIBRARY prover: its first random draw (the mask alpha) is supplied by the
 			// harness, so the challenge can be recovered from the response (s1 = e*x + alpha) without knowing
 			// how the challenge is derived; then U' := s1*G - e*Xbad makes the point equation hold for Xbad
